@@ -805,6 +805,22 @@ func c15churnRun(r *kit.Run, rng *rand.Rand, caseNo, inst int, pop c15Pop, scrip
 				r.Inconclusive("watchdog: delete-watch event not processed")
 				return false
 			}
+			// Client.close() is noticed by the read loop only between two reads: a read loop that
+			// was still on its way back from the PINGREQ ends at once and runs its full teardown
+			// (which deletes the stored session once more).  Wait until every read loop is parked
+			// in a read or gone, and let a timely watch deliver that second event now, while the
+			// id is gone, instead of after the id has connected again.
+			if !c15rigReadLoopsParked() {
+				r.Inconclusive("watchdog: read loops neither parked in a read nor gone after the session delete")
+				return false
+			}
+			if rb.store.heldCount() > 0 {
+				if _, ok := rb.flushDeletes(); !ok {
+					r.Inconclusive("watchdog: delete-watch event not processed")
+					return false
+				}
+				r.Count("churn_session_deleted:old_read_loop_ended_at_once_and_deleted_the_session_again", 1)
+			}
 			conns[st.CI] = nil
 			lingering = append(lingering, c) // stays open and silent until the end of the instance
 			gone[st.CI] = true
